@@ -2253,25 +2253,32 @@ impl RaftNode {
         for entry in entries {
             let logical_len = persistent.array_len_as_log_index();
             if entry.index > logical_len {
-                persistent.log.push(entry.clone());
+                // Durable first: an entry held in memory but missing from the WAL
+                // would be acknowledged by the leader's retry ("already have it")
+                // and lost by the next restart.
                 if self.persist_log_entry(entry).is_err() {
                     return false;
                 }
+                persistent.log.push(entry.clone());
             } else if let Some(arr_idx) = persistent.log_index_to_array_index(entry.index) {
                 if arr_idx < persistent.log.len() && persistent.log[arr_idx].term != entry.term {
-                    // Conflict - persist truncation to WAL
+                    // Conflict - persist the truncation before dropping the suffix
                     if let Some(ref wal) = self.wal {
-                        let _ = wal
-                            .lock()
-                            .append(&crate::raft_wal::RaftWalEntry::LogTruncate {
-                                from_index: entry.index,
-                            });
+                        let truncated =
+                            wal.lock()
+                                .append(&crate::raft_wal::RaftWalEntry::LogTruncate {
+                                    from_index: entry.index,
+                                });
+                        if truncated.is_err() {
+                            return false;
+                        }
                     }
                     persistent.log.truncate(arr_idx);
-                    persistent.log.push(entry.clone());
+                    // ... and the replacement before holding it in memory
                     if self.persist_log_entry(entry).is_err() {
                         return false;
                     }
+                    persistent.log.push(entry.clone());
                 }
             }
             // If log_index_to_array_index returns None, the entry was
